@@ -1,7 +1,171 @@
-use crate::State;
+// C03 / C04: ZiPatch::apply and ZiPatch::create on real directory trees.
 use crate::util::*;
-use serde_json::Value;
+use crate::{State, guarded};
+use physis::patch::ZiPatch;
+use serde_json::{Value, json};
+use std::path::{Path, PathBuf};
 
-pub fn run(_st: &mut State, op: &str, _cmd: &Value) -> Value {
-    toolerror(&format!("unknown op {op}"))
+pub fn unrle(v: &Value) -> Vec<u8> {
+    let mut out = vec![];
+    for run in v.as_array().cloned().unwrap_or_default() {
+        let b = run[0].as_u64().unwrap_or(0) as u8;
+        let n = run[1].as_u64().unwrap_or(0) as usize;
+        out.extend(std::iter::repeat_n(b, n));
+    }
+    out
+}
+
+pub fn rle(b: &[u8]) -> Value {
+    let mut out: Vec<Value> = vec![];
+    let mut i = 0;
+    while i < b.len() {
+        let mut j = i + 1;
+        while j < b.len() && b[j] == b[i] {
+            j += 1;
+        }
+        out.push(json!([b[i], j - i]));
+        i = j;
+    }
+    Value::Array(out)
+}
+
+pub fn unhex(s: &str) -> Vec<u8> {
+    (0..s.len() / 2)
+        .map(|i| u8::from_str_radix(&s[2 * i..2 * i + 2], 16).unwrap_or(0))
+        .collect()
+}
+
+pub fn hex(b: &[u8]) -> String {
+    let mut s = String::with_capacity(b.len() * 2);
+    for x in b {
+        s.push_str(&format!("{x:02x}"));
+    }
+    s
+}
+
+pub fn materialize(root: &Path, tree: &Value) {
+    std::fs::create_dir_all(root).unwrap();
+    for d in tree["dirs"].as_array().cloned().unwrap_or_default() {
+        let mut p = root.to_path_buf();
+        p.push(get_str(&d));
+        std::fs::create_dir_all(&p).unwrap();
+    }
+    for f in tree["files"].as_array().cloned().unwrap_or_default() {
+        let mut p = root.to_path_buf();
+        p.push(get_str(&f["p"]));
+        if let Some(parent) = p.parent() {
+            std::fs::create_dir_all(parent).unwrap();
+        }
+        std::fs::write(&p, unrle(&f["c"])).unwrap();
+    }
+}
+
+fn walk(root: &Path, dir: &Path, dirs: &mut Vec<String>, files: &mut Vec<(String, Vec<u8>)>) {
+    let Ok(rd) = std::fs::read_dir(dir) else {
+        return;
+    };
+    for e in rd.flatten() {
+        let p = e.path();
+        let rel = p.strip_prefix(root).unwrap().to_str().unwrap().to_string();
+        let Ok(md) = std::fs::symlink_metadata(&p) else {
+            continue;
+        };
+        if md.is_dir() {
+            dirs.push(rel);
+            walk(root, &p, dirs, files);
+        } else if md.is_file() {
+            files.push((rel, std::fs::read(&p).unwrap_or_default()));
+        }
+    }
+}
+
+pub fn snapshot(root: &Path) -> Value {
+    let (mut dirs, mut files) = (vec![], vec![]);
+    walk(root, root, &mut dirs, &mut files);
+    dirs.sort();
+    files.sort();
+    json!({
+        "dirs": dirs.iter().map(|d| sbytes(d)).collect::<Vec<Value>>(),
+        "files": files.iter().map(|(p, c)| json!({"p": sbytes(p), "c": rle(c)})).collect::<Vec<Value>>(),
+    })
+}
+
+fn result_str(r: Result<(), physis::patch::PatchError>) -> Value {
+    match r {
+        Ok(()) => json!({"outcome": "value", "v": "ok"}),
+        Err(e) => json!({"outcome": "value", "v": format!("err:{e:?}")}),
+    }
+}
+
+pub fn casedir(st: &State, cmd: &Value, tag: &str) -> PathBuf {
+    let mut d = st.workdir.clone();
+    d.push(format!("{tag}{}", geti(cmd, "case")));
+    let _ = std::fs::remove_dir_all(&d);
+    std::fs::create_dir_all(&d).unwrap();
+    d
+}
+
+pub fn run(st: &mut State, op: &str, cmd: &Value) -> Value {
+    match op {
+        "patch.apply" => {
+            let base = casedir(st, cmd, "apply");
+            let mut data = base.clone();
+            data.push("data");
+            materialize(&data, &cmd["tree0"]);
+            let via = cmd["via"].as_str().unwrap_or("zipatch");
+            let mut results = vec![];
+            for (i, ph) in cmd["_patches"].as_array().cloned().unwrap_or_default().iter().enumerate() {
+                let mut pf = base.clone();
+                pf.push(format!("p{i}.patch"));
+                std::fs::write(&pf, unhex(ph.as_str().unwrap_or(""))).unwrap();
+                let (d, p) = (data.to_str().unwrap().to_string(), pf.to_str().unwrap().to_string());
+                let r = guarded(|| match via {
+                    "gamedata" => {
+                        match physis::gamedata::GameData::from_existing(physis::common::Platform::Win32, &d) {
+                            Some(g) => result_str(g.apply_patch(&p)),
+                            None => json!({"outcome": "value", "v": "err:nohandle"}),
+                        }
+                    }
+                    "bootdata" => match physis::bootdata::BootData::from_existing(&d) {
+                        Some(b) => result_str(b.apply_patch(&p)),
+                        None => json!({"outcome": "value", "v": "err:nohandle"}),
+                    },
+                    _ => result_str(ZiPatch::apply(&d, &p)),
+                });
+                let stop = r["outcome"] != "value" || r["v"] != "ok";
+                results.push(r);
+                if stop {
+                    break;
+                }
+            }
+            let tree1 = snapshot(&data);
+            let _ = std::fs::remove_dir_all(&base);
+            json!({"results": results, "tree1": tree1})
+        }
+        "patch.create" => {
+            let base = casedir(st, cmd, "create");
+            let (mut a, mut b, mut c) = (base.clone(), base.clone(), base.clone());
+            a.push("old");
+            b.push("new");
+            c.push("copy");
+            materialize(&a, &cmd["a"]);
+            materialize(&b, &cmd["b"]);
+            materialize(&c, &cmd["a"]);
+            let (sa, sb) = (a.to_str().unwrap().to_string(), b.to_str().unwrap().to_string());
+            let created = guarded(|| value(opt(ZiPatch::create(&sa, &sb), |p| json!(hex(&p)))));
+            let (a1, b1) = (snapshot(&a), snapshot(&b));
+            let mut applied = json!({"outcome": "skipped"});
+            if created["outcome"] == "value" && created["v"]["some"] == true {
+                let mut pf = base.clone();
+                pf.push("created.patch");
+                std::fs::write(&pf, unhex(created["v"]["v"].as_str().unwrap_or(""))).unwrap();
+                let (d, p) = (c.to_str().unwrap().to_string(), pf.to_str().unwrap().to_string());
+                applied = guarded(|| result_str(ZiPatch::apply(&d, &p)));
+            }
+            let c1 = snapshot(&c);
+            let _ = std::fs::remove_dir_all(&base);
+            json!({"created": created, "a1": a1, "b1": b1, "applied": applied, "c1": c1})
+        }
+        _ => toolerror(&format!("unknown op {op}")),
+    }
 }
